@@ -112,11 +112,19 @@ def limbs(n):
     return (n >> 16) & 0xFFFF, n & 0xFFFF
 
 
-def send_trace(msg, ctx, max_len, data, as_file):
+def send_trace(msg, ctx, max_len, data, as_file, assoc=None, offset=0):
     """Send msg through the real Association.send; returns (trace events for Trace_Dimse, cmd bytes, data bytes, problems)."""
     if data:
-        msg.data_set = io.BytesIO(data) if as_file else data
-    assoc = bare_association(max_len)
+        if as_file:
+            fp = io.BytesIO(bytes((7 * i) % 251 for i in range(offset)) + data)
+            fp.seek(offset)
+            msg.data_set = fp
+        else:
+            msg.data_set = data
+    if assoc is None:
+        assoc = bare_association(max_len)
+    else:
+        assoc.dul.sent = []
     problems = []
     try:
         assoc.send(msg, ctx)
